@@ -48,4 +48,33 @@ theorem sl_eq (sl : Slots) (RT : Py.StrSet) (g12 : Py.FloatLit → String) (strL
   · rl_simp2; rl_fin2
   · rl_simp2; rl_fin2
 
+/-- running `m` followed by a continuation -/
+theorem exec_bind {α β} (m : Py.MS RState α) (k : α → Py.MS RState β) (s : RState) :
+    Py.MS.exec (m >>= k) s =
+      (match Py.MS.exec m s with
+       | (.ok a, s') => Py.MS.exec (k a) s'
+       | (.error e, s') => (.error e, s')) := by
+  simp only [Py.MS.exec, bind, ExceptT.bind, ExceptT.mk, ExceptT.run, ExceptT.bindCont, StateT.bind, StateT.run]
+  rcases m s with ⟨(e | a), s'⟩ <;> rfl
+
+theorem exec_pure {α} (a : α) (s : RState) : Py.MS.exec (pure a : Py.MS RState α) s = (.ok a, s) := rfl
+
+theorem named_tok {α} (d : String) (f : String → RState → RState × Except RErr α) : named (.tok d) f = req (fun s => f d s) := rfl
+
+/-- **a list comprehension of requests is the model's `listComp`**: `[G(x) for x in names]` over strs, in order, the first exception abandons
+    the list and keeps the world as it is then -/
+theorem mapM_named {β} (F : RState → String → RState × Except RErr β) (ds : List String) (s : RState) :
+    Py.MS.exec (List.mapM (fun (d : Tree) => named d (fun n s => F s n)) (ds.map Tree.tok)) s =
+      (match listComp F s ds with
+       | (s', .ok l) => (.ok l, s')
+       | (s', .error e) => (.error (ofRErr e), s')) := by
+  induction ds generalizing s with
+  | nil => rfl
+  | cons d ds ih =>
+    simp only [List.map_cons, List.mapM_cons, named_tok, exec_req_bind, listComp]
+    rcases F s d with ⟨s1, (e | y)⟩
+    · rfl
+    · simp only [exec_bind, ih s1, exec_pure]
+      rcases listComp F s1 ds with ⟨s2, (e | ys)⟩ <;> rfl
+
 end Dsd.PyReadLineL
